@@ -26,7 +26,7 @@ LeafKinds == {Leaf(TRUE, f, n) : f \in BOOLEAN, n \in 1..MaxN} \cup {Leaf(FALSE,
 FuncKinds == {Func(f, n, s) : f \in BOOLEAN, n \in 1..MaxN, s \in Styles}
 
 Base == [nodes |-> <<>>, top |-> 1, conns |-> << <<>> >>, ctx0 |-> <<FALSE>>, runs |-> 1,
-         acts |-> {0, 1, 2}, outs |-> {"ok", "err"}, cancel |-> FALSE, nilstart |-> FALSE]
+         acts |-> {0, 1, 2}, outs |-> {"ok", "err"}, cancel |-> FALSE, nilstart |-> FALSE, flowretry |-> FALSE]
 
 \* ---- one node run on its own -------------------------------------------
 SingleCfgs    == {[Base EXCEPT !.nodes = <<k>>] : k \in LeafKinds \cup FuncKinds}
@@ -100,6 +100,10 @@ Nest3Cfgs ==
                 !.conns = <<ConnSeq(4, << <<1, 1>>, <<1, 2>> >>, ti) \o ConnSeq(5, << <<4, 1>>, <<4, 2>> >>, tm) \o ConnSeq(6, << <<5, 1>>, <<5, 2>>, <<3, 1>> >>, to)>>,
                 !.acts = {1, 2}, !.outs = {"ok"}] :
       ti \in [1..2 -> {-1, 0, 2}], tm \in [1..2 -> {-1, 0, 3}], to \in [1..3 -> {-1, 0, 3, 5}]}
+\* a flow with a retry budget of its own (2): a failing pass over its nodes is repeated from the start node
+FlowRetryCfgs == {[Base EXCEPT !.nodes = <<Leaf(TRUE, f, 1), Leaf(FALSE, FALSE, 1), [FlowNode(1) EXCEPT !.N = 2], FlowNode(s)>>, !.top = 4,
+                   !.conns = <<ConnSeq(3, << <<1, 1>>, <<2, 1>> >>, t) \o ConnSeq(4, << <<3, 1>> >>, <<u>>)>>, !.acts = {1}, !.outs = {"ok", "err"}, !.flowretry = TRUE] :
+                     f \in BOOLEAN, s \in {3}, t \in [1..2 -> {-1, 0, 2}], u \in {-1, 0}}
 \* a flow without a start node
 NilStartCfgs == {[Base EXCEPT !.nodes = <<Leaf(TRUE, FALSE, 1), FlowNode(0), FlowNode(s)>>, !.top = 3,
                   !.conns = <<ConnSeq(3, << <<1, 1>>, <<2, 1>> >>, t)>>, !.acts = {1}, !.outs = {"ok"}, !.nilstart = TRUE] :
@@ -121,6 +125,7 @@ Cfgs == CASE Family = "single"       -> SingleCfgs
           [] Family = "nesterr"      -> NestErrCfgs
           [] Family = "nest3"        -> Nest3Cfgs
           [] Family = "nilstart"     -> NilStartCfgs
+          [] Family = "flowretry"    -> FlowRetryCfgs
 
 MCInit == \E c \in Cfgs : InitWith(c)
 MCSpec == MCInit /\ [][Next]_vars
